@@ -166,7 +166,43 @@ class _Elementwise:
         self.W = W
 
 
+class Parameter:
+    """problem data that may be (re)assigned between solves: read at solve time"""
+    __array_priority__ = 1000
+
+    def __init__(self, shape=(), symmetric=False, **kw):
+        self.shape = tuple(shape) if not isinstance(shape, int) else (shape,)
+        self.symmetric = symmetric
+        self.value = None
+
+
+class _ParamAff(Aff):
+    """sum(multiply(Variable, Parameter)): the coefficients are the parameter's value when the form is read"""
+
+    def __init__(self, var, param):
+        self._var, self._param = var, param
+        self.const = 0
+
+    @property
+    def terms(self):
+        if self._param.value is None:
+            raise ValueError("cvxpy stand-in: a Parameter of the problem has no value")
+        W = np.asarray(self._param.value)
+        out = {}
+        for idx in np.ndindex(*self._var.shape):
+            w = W[idx]
+            if _is_zero_literal(w):
+                continue
+            for k, v in (self._var.entry(*idx) * w).terms.items():
+                out[k] = out[k] + v if k in out else v
+        return out
+
+
 def multiply(var, W):
+    if isinstance(W, Parameter):
+        if not isinstance(var, Variable) or W.shape != var.shape:
+            raise ValueError("cvxpy stand-in: multiply(Variable, Parameter of the same shape) only")
+        return _Elementwise(var, W)
     if hasattr(W, 'toarray'):          # scipy sparse matrices are accepted by cvxpy
         W = W.toarray()
     W = np.asarray(W)
@@ -178,6 +214,8 @@ def multiply(var, W):
 def sum(e):
     if not isinstance(e, _Elementwise):
         raise TypeError("cvxpy stand-in: sum(multiply(...)) only")
+    if isinstance(e.W, Parameter):
+        return _ParamAff(e.var, e.W)
     out = Aff()
     for idx in np.ndindex(*e.var.shape):
         w = e.W[idx]
